@@ -163,6 +163,15 @@ def queries(ctx, out):
             out.violation("query-" + fw.h(rp), f"building a map with a zero tempo raised {impl.err_name(e)}", rp, observed=impl.err_name(e), promised="ValueError or a map")
             continue
         lo = zt[p][0]
+        # a healthy twin (same resolution and ticks, no zero) answers the same ticks first, through both public queries: nothing
+        # it answered may come back from the untrustworthy map
+        try:
+            twin = C01.build_bpm_events(res, tempo)
+            for tick in (lo, lo + 1, lo + 1000):
+                twin.timestamp_at_tick(tick)
+                twin.timestamp_at_tick_no_optimize_return(tick)
+        except ValueError:
+            pass
         for tick in (lo, lo + 1, lo + 1000, -1, -5):
             rp = {"op": "query", "res": res, "tempo": zt, "tick": tick}
             governed = tick >= lo and (p + 1 >= len(zt) or tick < zt[p + 1][0])
@@ -178,6 +187,14 @@ def queries(ctx, out):
                     except Exception as e:  # noqa: BLE001
                         out.violation("query-" + fw.h(rp), f"query raised {impl.err_name(e)}", rp, observed=impl.err_name(e), promised="ValueError")
                         break
+                try:
+                    r = be.timestamp_at_tick_no_optimize_return(tick)
+                    out.violation("query-" + fw.h(rp), f"timestamp_at_tick_no_optimize_return({tick}) (zero tempo at {lo}; a healthy map of the same resolution "
+                                  f"answered that tick earlier in the process) returned {r}", {**rp, "twin": tempo, "api": "noopt"}, observed=str(r), promised="ValueError")
+                except ValueError:
+                    pass
+                except Exception as e:  # noqa: BLE001
+                    out.violation("query-" + fw.h(rp), f"query raised {impl.err_name(e)}", {**rp, "api": "noopt"}, observed=impl.err_name(e), promised="ValueError")
 
 
 def replay(ctx, data):
@@ -192,8 +209,12 @@ def replay(ctx, data):
             return False, "ValueError"
     if data["op"] == "query":
         try:
+            if data.get("twin"):
+                tw = C01.build_bpm_events(data["res"], [tuple(t) for t in data["twin"]])
+                tw.timestamp_at_tick(data["tick"])
+                tw.timestamp_at_tick_no_optimize_return(data["tick"])
             be = C01.build_bpm_events(data["res"], [tuple(t) for t in data["tempo"]])
-            r = be.timestamp_at_tick(data["tick"])
+            r = be.timestamp_at_tick_no_optimize_return(data["tick"]) if data.get("api") == "noopt" else be.timestamp_at_tick(data["tick"])
             return True, str(r)
         except ValueError:
             return False, "ValueError"
